@@ -682,4 +682,55 @@ theorem run_gets {ρ : Type} (z : ρ) (mean : List ρ → ρ) :
         · simp only [List.singleton_append, List.map_cons, hv]
           rw [g6, hs1, f2, f3, f4]
 
+/-! ## stacks whose same-parity layers differ in length -/
+
+theorem aligned_ragged {α : Type} (z : α) (c : SrrConfig) (M : Nat) (hM : 1 ≤ M) (layers : List (Arr2 α))
+    (l0 l1 : Nat) (wn : Nat) (hw : c.warmup = (wn : Int)) (hr : Ragged layers l0 l1 M wn) :
+    aligned z c (M : Rat) layers = some
+      { rows := l0 * M, cols := l1 * M, depth := layers.length,
+        get := fun r cc i => match layers[i]? with
+          | some l => if i % 2 = 0 then l.get (r / M) (wn + cc) else l.get (cc / M) (wn + r)
+          | none => z } := by
+  obtain ⟨h2, hs⟩ := hr
+  have e0 : layers[0]? = some layers[0] := List.getElem?_eq_getElem (by omega)
+  have e1 : layers[1]? = some layers[1] := List.getElem?_eq_getElem (by omega)
+  have a0 := hs 0 _ e0
+  have a1 := hs 1 _ e1
+  simp only [Nat.zero_mod, if_true] at a0
+  simp only [show (1 : Nat) % 2 = 1 from rfl, Nat.one_ne_zero, if_false] at a1
+  have hprep : ∀ (i : Nat) (l : Arr2 α), layers[i]? = some l →
+      prepLayer (wn : Int) M 0 (l1 * M) (l0 * M) i l
+        = (if i % 2 = 0 then { rows := l0 * M, cols := l1 * M, get := fun r cc => l.get (r / M) (wn + cc) }
+           else { rows := l0 * M, cols := l1 * M, get := fun r cc => l.get (cc / M) (wn + r) }) := by
+    intro i l hl
+    have hsh := hs i l hl
+    by_cases hi : i % 2 = 0
+    · simp only [hi, if_true] at hsh ⊢
+      rw [prepLayer_even l wn M _ _ i hi hsh.2, hsh.1]
+    · have hi' : i % 2 = 1 := by omega
+      simp only [hi, if_false] at hsh ⊢
+      rw [prepLayer_odd l wn M _ _ i hi' hsh.2, hsh.1]
+  unfold aligned
+  rw [e0, e1]
+  simp only [magInt_natCast M hM, magAxis_natCast M hM, Arr2.dim, if_true, a0.1, a1.1, hw]
+  split
+  · congr 2
+    funext r cc i
+    cases hl : layers[i]? with
+    | none => rfl
+    | some l =>
+      simp only
+      rw [hprep i l hl]
+      by_cases hi : i % 2 = 0 <;> simp [hi]
+  · rename_i hneg
+    exfalso; apply hneg
+    rw [List.all_eq_true]
+    intro i _
+    cases hl : layers[i]? with
+    | none => rfl
+    | some l =>
+      simp only
+      rw [hprep i l hl]
+      by_cases hi : i % 2 = 0 <;> simp [hi]
+
 end Pew.Srr
